@@ -51,6 +51,11 @@ pub fn classify(r: Result<(), Box<dyn std::any::Any + Send>>) -> OpResult {
 
 pub struct InjectedPanic;
 
+pub fn intern_prop(p: &str) -> &'static str {
+    const ALL: [&str; 17] = ["C01", "C02", "C03", "C04", "C05", "C06", "C07", "C08", "C09", "C10", "C11", "C12", "C13", "C14", "C15", "C16", "C17"];
+    ALL.iter().copied().find(|x| *x == p).unwrap_or("C00")
+}
+
 pub trait Hooks {
     fn before_op(&mut self, i: usize, op: &Install);
     fn after_op(&mut self, i: usize, op: &Install, r: OpResult);
@@ -756,6 +761,11 @@ pub fn execute(sc: &SimScenario) -> Outcome {
             break;
         }
         let what = format!("lifetime {li} scope exit ({})", if lt.exit_panic { "unwinding" } else { "drop" });
+        if let Some(sg) = with_world(|w| w.pending_segv.take()) {
+            ck.viol("drop-crashed-sigsegv", &["C02", "C05"], format!("{what}: restoration while unwinding touched {:#x} ({}) and would have died with SIGSEGV", sg.addr, if sg.write { "write" } else { "read" }));
+            ck.check_events(&what, None);
+            break;
+        }
         match r {
             OpResult::Ok => {}
             OpResult::Segv(a, wr) => {
